@@ -4,7 +4,8 @@
    the documented conditions are the predicates of Spec/HeaderRules.v. *)
 From Coq Require Import NArith List Bool.
 From Coq Require String.
-From I18n Require Import Lib.Outcome Model.Header Spec.HeaderRules Proofs.HeaderBase Proofs.Header Model.Tags
+From Coq Require Import Sorted.
+From I18n Require Import Lib.Outcome Model.Header Spec.HeaderRules Proofs.HeaderBase Proofs.HeaderComments Proofs.Header Proofs.Header2 Proofs.HeaderExample Model.Tags
   Generated.HeaderFields Generated.SpecialDomains Generated.UcdHeader.
 Import ListNotations.
 Import String.StringSyntax.
@@ -146,8 +147,128 @@ Theorem C15_boilerplate_translator_iff : forall O known dedicated nb ob inp ds, 
 Proof. exact boilerplate_translator_iff. Qed.
 Print Assumptions C15_boilerplate_translator_iff.
 
+(* ---- Language-Team ---- *)
+Theorem C15_invalid_team_iff : forall O known dedicated nb ob inp ds, hdr_check O known dedicated nb ob inp = Ok ds ->
+  forall v, In (DInvalidTeam v) ds <->
+    In v (values (field_name FTeam) (metadata_of (h_entries inp))) /\ team_invalid (o_lower O) nb ob (o_parseaddr O v).
+Proof. exact invalid_team_iff. Qed.
+Print Assumptions C15_invalid_team_iff.
+
+Theorem C15_boilerplate_team_iff : forall O known dedicated nb ob inp ds, hdr_check O known dedicated nb ob inp = Ok ds ->
+  forall v, In (DBoilerplateTeam v) ds <->
+    In v (values (field_name FTeam) (metadata_of (h_entries inp))) /\ h_template inp = false /\
+    address_is_placeholder (o_lower O) nb ob team_placeholders (o_parseaddr O v).
+Proof. exact boilerplate_team_iff. Qed.
+Print Assumptions C15_boilerplate_team_iff.
+
+(* the Last-Translator value named is the greatest (Python string order) among those with the same address *)
+Theorem C15_team_equals_translator_iff : forall O known dedicated nb ob inp ds, hdr_check O known dedicated nb ob inp = Ok ds ->
+  forall v tr, In (DTeamEqualsTranslator v tr) ds <->
+    In v (values (field_name FTeam) (metadata_of (h_entries inp))) /\ team_address_fine (o_lower O) nb ob (o_parseaddr O v) /\
+    In tr (values (field_name FTranslator) (metadata_of (h_entries inp))) /\ o_parseaddr O tr = o_parseaddr O v /\
+    forall tr', In tr' (values (field_name FTranslator) (metadata_of (h_entries inp))) -> o_parseaddr O tr' = o_parseaddr O v ->
+                tr' = tr \/ str_lt tr' tr.
+Proof. exact team_equals_translator_iff. Qed.
+Print Assumptions C15_team_equals_translator_iff.
+
+(* ---- Report-Msgid-Bugs-To: the values examined are all values unless every one of them is empty ---- *)
+Theorem C15_report_values : forall fs v,
+  In v (report_values fs) <->
+  In v (values (field_name FReport) fs) /\ exists w, In w (values (field_name FReport) fs) /\ w <> [].
+Proof. exact In_report_values_iff. Qed.
+Print Assumptions C15_report_values.
+
+Theorem C15_invalid_report_iff : forall O known dedicated nb ob inp ds, hdr_check O known dedicated nb ob inp = Ok ds ->
+  forall v, In (DInvalidReport v) ds <->
+    In v (report_values (metadata_of (h_entries inp))) /\
+    report_invalid (o_lower O) nb ob (o_parseaddr O v) (o_urlscheme O v = UScheme).
+Proof. exact invalid_report_iff. Qed.
+Print Assumptions C15_invalid_report_iff.
+
+Theorem C15_boilerplate_report_iff : forall O known dedicated nb ob inp ds, hdr_check O known dedicated nb ob inp = Ok ds ->
+  forall v, In (DBoilerplateReport v) ds <->
+    In v (report_values (metadata_of (h_entries inp))) /\
+    address_is_placeholder (o_lower O) nb ob [lit "EMAIL@ADDRESS"] (o_parseaddr O v).
+Proof. exact boilerplate_report_iff. Qed.
+Print Assumptions C15_boilerplate_report_iff.
+
+(* ---- Project-Id-Version ---- *)
+Theorem C15_boilerplate_project_iff : forall O known dedicated nb ob inp ds, hdr_check O known dedicated nb ob inp = Ok ds ->
+  forall v, In (DBoilerplateProject v) ds <-> In v (values (field_name FProject) (metadata_of (h_entries inp))) /\ project_boilerplate v.
+Proof. exact boilerplate_project_iff. Qed.
+Print Assumptions C15_boilerplate_project_iff.
+
+Theorem C15_no_package_name_iff : forall O known dedicated nb ob inp ds, hdr_check O known dedicated nb ob inp = Ok ds ->
+  forall v, In (DNoPackageName v) ds <->
+    In v (values (field_name FProject) (metadata_of (h_entries inp))) /\ ~ project_boilerplate v /\ ~ has_letter (o_word O) (o_digit O) v.
+Proof. exact no_package_name_iff. Qed.
+Print Assumptions C15_no_package_name_iff.
+
+Theorem C15_no_version_iff : forall O known dedicated nb ob inp ds, hdr_check O known dedicated nb ob inp = Ok ds ->
+  forall v, In (DNoVersion v) ds <->
+    In v (values (field_name FProject) (metadata_of (h_entries inp))) /\ ~ project_boilerplate v /\ ~ has_digit v.
+Proof. exact no_version_iff. Qed.
+Print Assumptions C15_no_version_iff.
+
+(* ---- the header entry: which one it is, its flags, its characters ---- *)
+Theorem C15_header_entry_is_first_live : forall es first f e more,
+  header_entries first es = (f, e) :: more <->
+  exists a b, es = a ++ e :: b /\ live e = true /\ (forall x, In x a -> live x = false) /\
+              f = (match a with [] => first | _ => false end) /\ more = header_entries false b.
+Proof. exact header_entries_first. Qed.
+Print Assumptions C15_header_entry_is_first_live.
+
+Theorem C15_unexpected_flag_iff : forall O known dedicated nb ob inp ds, hdr_check O known dedicated nb ob inp = Ok ds ->
+  forall fl hint, In (DUnexpectedFlag fl hint) ds <->
+    exists f e more, header_entries true (h_entries inp) = (f, e) :: more /\ In fl (e_flags e) /\ fl <> s_fuzzy /\
+                     hint = o_close_fuzzy O (o_lower O fl).
+Proof. exact unexpected_flag_iff. Qed.
+Print Assumptions C15_unexpected_flag_iff.
+
+Theorem C15_duplicate_flag_iff : forall O known dedicated nb ob inp ds, hdr_check O known dedicated nb ob inp = Ok ds ->
+  forall fl, In (DDuplicateFlag fl) ds <->
+    exists f e more, header_entries true (h_entries inp) = (f, e) :: more /\
+                     (1 < count_occ (list_eq_dec N.eq_dec) (e_flags e) fl)%nat.
+Proof. exact duplicate_flag_iff. Qed.
+Print Assumptions C15_duplicate_flag_iff.
+
+(* the tag lists exactly the unusual characters of the header text, each once, in increasing order *)
+Theorem C15_unusual_chars_iff : forall O known dedicated nb ob inp ds, hdr_check O known dedicated nb ob inp = Ok ds ->
+  forall cs, In (DUnusualChars cs) ds <->
+    exists f e more, header_entries true (h_entries inp) = (f, e) :: more /\ cs <> [] /\ StronglySorted N.lt cs /\
+                     forall c, In c cs <-> unusual_in (o_word O) (entry_msgstr e) c.
+Proof. exact unusual_chars_iff. Qed.
+Print Assumptions C15_unusual_chars_iff.
+
+(* ---- initial comments ---- *)
+Theorem C15_boilerplate_comment_iff : forall O known dedicated nb ob inp ds, hdr_check O known dedicated nb ob inp = Ok ds ->
+  o_space O 32 = true ->
+  forall line, In (DBoilerplateComment line) ds <->
+    In line (splitlines (h_comment inp)) /\ comment_boilerplate (o_word O) (o_space O) (h_template inp) line.
+Proof. exact boilerplate_comment_iff. Qed.
+Print Assumptions C15_boilerplate_comment_iff.
+
+(* every line of str.splitlines is a piece of the text, and every boilerplate pattern contains a placeholder word *)
+Theorem C15_comment_line_in_text : forall s l, In l (splitlines s) -> contains l s.
+Proof. exact splitlines_contains. Qed.
+Print Assumptions C15_comment_line_in_text.
+Theorem C15_boilerplate_has_word : forall W S t line, comment_boilerplate W S t line ->
+  exists w, In w boilerplate_words /\ contains w line.
+Proof. exact comment_boilerplate_word. Qed.
+Print Assumptions C15_boilerplate_has_word.
+
+(* ---- parse_header inverts the rendering of a field list ---- *)
+Theorem C15_parse_render : forall h, Forall field_ok h ->
+  parse_header (render h) = map (fun f => HField (fst f) (snd f)) h.
+Proof. exact parse_header_render. Qed.
+Print Assumptions C15_parse_render.
+Theorem C15_parse_render_fields : forall h, Forall field_ok h ->
+  fields_of (parse_header (render h)) = h /\ strays_of (parse_header (render h)) = [].
+Proof. exact fields_of_render. Qed.
+Print Assumptions C15_parse_render_fields.
+
 (* a header that follows every convention yields no diagnostic from the modelled methods *)
-Theorem C15_clean_header_silent : forall O known dedicated nb ob, o_word O 32 = false -> o_word O 99 = true ->
+Theorem C15_clean_header_silent : forall O known dedicated nb ob, o_word O 32 = false -> o_word O 99 = true -> o_space O 32 = true ->
   forall inp e fs, clean_header O known nb ob inp e fs -> hdr_check O known dedicated nb ob inp = Ok [].
 Proof. exact clean_header_silent. Qed.
 Print Assumptions C15_clean_header_silent.
@@ -167,51 +288,15 @@ Print Assumptions C15_urlparse_failure_reported.
 
 (* ------------------------------------------------------------------ *)
 (* examples (non-vacuity): the base header of tools/harness/pogen.py, near-miss values *)
-Definition nl : str := [10].
-Definition ex_translator : str := lit "Jakub Wilk <jwilk@jwilk.net>".
-Definition ex_team : str := lit "Polish <debian-l10n-polish@lists.debian.org>".
-Definition ex_header (report : str) : str :=
-  lit "Project-Id-Version: Gizmo Enhancer 1.0" ++ nl ++
-  lit "Report-Msgid-Bugs-To: " ++ report ++ nl ++
-  lit "POT-Creation-Date: 2012-11-01 14:42+0100" ++ nl ++
-  lit "PO-Revision-Date: 2012-11-01 14:42+0100" ++ nl ++
-  lit "Last-Translator: " ++ ex_translator ++ nl ++
-  lit "Language-Team: " ++ ex_team ++ nl ++
-  lit "Language: pl" ++ nl ++
-  lit "MIME-Version: 1.0" ++ nl ++
-  lit "Content-Type: text/plain; charset=UTF-8" ++ nl ++
-  lit "Content-Transfer-Encoding: 8bit" ++ nl ++
-  lit "Plural-Forms: nplurals=3; plural=n==1 ? 0 : n%10>=2 && n%10<=4 && (n%100<10 || n%100>=20) ? 1 : 2;" ++ nl.
-Definition ex_comment : str :=
-  lit "Polish translation of Gizmo Enhancer" ++ nl ++ lit "Copyright (C) 2012 Jakub Wilk <jwilk@jwilk.net>" ++ nl ++
-  lit "This file is distributed under the same license as the Gizmo Enhancer package.".
-(* the oracle values the libraries give on this header *)
-Definition ex_oracles : oracles := {|
-  o_word := in_ranges re_word_ranges; o_digit := in_ranges re_digit_ranges; o_space := in_ranges re_space_ranges;
-  o_lower := fun s => s;
-  o_close_fuzzy := fun _ => false;
-  o_close_field := fun _ => None;
-  o_parseaddr := fun s => if str_eqb s ex_translator then lit "jwilk@jwilk.net"
-                          else if str_eqb s ex_team then lit "debian-l10n-polish@lists.debian.org"
-                          else if str_eqb s (lit "http://[foo") then lit "//" else s;
-  o_urlscheme := fun s => if str_eqb s (lit "http://[foo") then URaise else UNoScheme;
-  o_enc := fun s => if str_eqb s (lit "UTF-8") then EKnown true true None else EUnknown;
-  o_unrep := fun _ => []
-|}.
-Definition ex_entry (report : str) : entry :=
-  {| e_header := true; e_obsolete := false; e_occurrences := []; e_has_plural := false;
-     e_msgstr := Some (ex_header report); e_plural0 := None; e_flags := [] |}.
-Definition ex_other : entry :=
-  {| e_header := false; e_obsolete := false; e_occurrences := []; e_has_plural := false;
-     e_msgstr := Some (lit "x"); e_plural0 := None; e_flags := [] |}.
-Definition ex_input (template : bool) (report : str) : hinput :=
-  {| h_template := template; h_comment := ex_comment; h_entries := [ex_entry report; ex_other] |}.
-Definition ex_check (inp : hinput) :=
-  hdr_check ex_oracles header_fields dedicated_fields special_exact_or_sub special_sub_only inp.
-
 Example C15_ex_base_header_silent :
   ex_check (ex_input false (lit "gizmoenhancer@jwilk.net")) = Ok [] /\ ex_check (ex_input true (lit "gizmoenhancer@jwilk.net")) = Ok [].
 Proof. vm_compute. split; reflexivity. Qed.
+
+(* ... and it satisfies the hypothesis of C15_clean_header_silent (the theorem is not vacuous) *)
+Example C15_ex_base_header_clean :
+  clean_header ex_oracles header_fields special_exact_or_sub special_sub_only (ex_input false (lit "gizmoenhancer@jwilk.net"))
+    (ex_entry (lit "gizmoenhancer@jwilk.net")) (metadata_of (h_entries (ex_input false (lit "gizmoenhancer@jwilk.net")))).
+Proof. exact ex_base_header_clean. Qed.
 
 Example C15_ex_near_misses :
   ex_check (ex_input false (lit "user@localhost")) = Ok [DInvalidReport (lit "user@localhost")] /\
@@ -219,6 +304,24 @@ Example C15_ex_near_misses :
   ex_check (ex_input false (lit "EMAIL@ADDRESS")) = Ok [DBoilerplateReport (lit "EMAIL@ADDRESS")] /\
   ex_check (ex_input false []) = Ok [DNoField FReport] /\
   content_type_match ex_oracles (lit "text/plain;charset=X") = Some (false, lit "X").
+Proof. vm_compute. repeat split; reflexivity. Qed.
+
+(* the base header is the rendering of its field list *)
+Example C15_ex_render :
+  fields_of (parse_header (ex_header (lit "gizmoenhancer@jwilk.net"))) =
+  [(lit "Project-Id-Version", lit "Gizmo Enhancer 1.0"); (lit "Report-Msgid-Bugs-To", lit "gizmoenhancer@jwilk.net");
+   (lit "POT-Creation-Date", lit "2012-11-01 14:42+0100"); (lit "PO-Revision-Date", lit "2012-11-01 14:42+0100");
+   (lit "Last-Translator", ex_translator); (lit "Language-Team", ex_team); (lit "Language", lit "pl");
+   (lit "MIME-Version", lit "1.0"); (lit "Content-Type", lit "text/plain; charset=UTF-8"); (lit "Content-Transfer-Encoding", lit "8bit");
+   (lit "Plural-Forms", lit "nplurals=3; plural=n==1 ? 0 : n%10>=2 && n%10<=4 && (n%100<10 || n%100>=20) ? 1 : 2;")].
+Proof. vm_compute. reflexivity. Qed.
+
+Example C15_ex_more_tags :
+  check_comments ex_oracles false (lit "FIRST AUTHOR <EMAIL@ADDRESS>, YEAR." ++ nl ++ lit "xFIRST AUTHORS, Copyright  YEAR") =
+    [DBoilerplateComment (lit "FIRST AUTHOR <EMAIL@ADDRESS>, YEAR.")] /\
+  unusual_chars ex_oracles [97; 27; 91; 98; 27; 99; 191; 32; 191; 0] = [0; 27; 191] /\
+  project_diags ex_oracles (lit "1.0") = [DNoPackageName (lit "1.0")] /\
+  project_diags ex_oracles (lit "gizmo") = [DNoVersion (lit "gizmo")].
 Proof. vm_compute. repeat split; reflexivity. Qed.
 
 (* the former D13 witness: urlparse raises ValueError on http://[foo; it is now reported, and the later checks still run *)
